@@ -8,7 +8,7 @@ deriving DecidableEq, Repr
 inductive Backend | mpl | plotly
 deriving DecidableEq, Repr
 
-inductive Out | ok | valueError | moduleNotFound | userExc
+inductive Out | ok | valueError | moduleNotFound | userExc | baseExc
 deriving DecidableEq, Repr
 
 /-- `set_config(plot_backend=v)`; `avail` = `find_spec("plotly")` is truthy.
@@ -29,9 +29,11 @@ inductive Prog
   | seq (a b : Prog)
   | set (v : Val)
   | getMutate                     -- `d = get_config(); d["plot_backend"] = "junk"`
-  | raise                         -- `raise UserExc`
+  | raise                         -- `raise UserExc` (an `Exception`)
+  | raiseBase                     -- `raise KeyboardInterrupt`-like: a `BaseException` that is not an `Exception`
   | block (v : Val) (body : Prog) -- `with config_context(plot_backend=v): body`
   | catch (body : Prog)           -- `try: body  except Exception: pass`
+  | catchAll (body : Prog)        -- `try: body  except BaseException: pass`
 
 /-- what the harness observes: the backend after every primitive step and at block entry/exit -/
 abbrev Trace := List Backend
@@ -46,6 +48,7 @@ def exec (avail : Bool) : Prog → Backend → Backend × Out × Trace
   | .set v, s => let (s', o) := setCfg avail s v; (s', o, [s'])
   | .getMutate, s => (s, .ok, [s])       -- the returned dict is a copy: mutating it has no effect
   | .raise, s => (s, .userExc, [s])
+  | .raiseBase, s => (s, .baseExc, [s])
   | .block v body, s =>
     -- old = get_config(); set_config(v)  [may raise before the try]; try: body finally: set_config(**old)
     match setCfg avail s v with
@@ -55,6 +58,10 @@ def exec (avail : Bool) : Prog → Backend → Backend × Out × Trace
       (s3, if o3 = .ok then o else o3, [s1] ++ t ++ [s3])
     | (s1, o) => (s1, o, [s1])
   | .catch body, s =>
+    -- `except Exception` does not catch a `BaseException`
+    let (s', o, t) := exec avail body s
+    (s', if o = .baseExc then .baseExc else .ok, t ++ [s'])
+  | .catchAll body, s =>
     let (s', _, t) := exec avail body s
     (s', .ok, t ++ [s'])
 
